@@ -2,6 +2,7 @@ package values
 
 import (
 	"fmt"
+	"math"
 	"reflect"
 	"strings"
 
@@ -110,7 +111,26 @@ func (v wrapperValue) Int() int {
 	if n, ok := v.value.(int); ok {
 		return n
 	}
+	if n, ok := IntOf(v.value); ok {
+		return n
+	}
 	panic(conversionError("", v.value, reflect.TypeOf(1)))
+}
+
+// IntOf returns the value of an integer of any width, signed or unsigned, when an int can hold it.
+// A count, an index or a range bound is the same number however the application holds it.
+func IntOf(value any) (int, bool) {
+	rv := reflect.ValueOf(value)
+	switch rv.Kind() {
+	case reflect.Int, reflect.Int8, reflect.Int16, reflect.Int32, reflect.Int64:
+		n := rv.Int()
+		return int(n), int64(int(n)) == n
+	case reflect.Uint, reflect.Uint8, reflect.Uint16, reflect.Uint32, reflect.Uint64, reflect.Uintptr:
+		n := rv.Uint()
+		return int(n), n <= math.MaxInt
+	default:
+		return 0, false
+	}
 }
 
 // interned values
@@ -153,7 +173,11 @@ func (av arrayValue) IndexValue(iv Value) Value {
 	case float64:
 		n = int(ix)
 	default:
-		return nilValue
+		m, ok := IntOf(ix)
+		if !ok {
+			return nilValue
+		}
+		n = m
 	}
 	if n < 0 {
 		n += ar.Len()
